@@ -735,6 +735,7 @@ func (s *State) applyFunction(name string, fn object.Object, args []object.Objec
 		fn = object.Value(fn) // (the value, not the register or reference holding it: same message with and without registers.)
 		return s.NewError("not a function: " + fn.Type().String() + ":" + fn.Inspect())
 	}
+	s.env.NoteSelfCall(function)
 	if ep := s.rootEnv.Epoch(); ep != s.cacheEpoch { // (from the root: walking up from a deep call frame each time is quadratic.)
 		// A top level function or constant was redefined or deleted since the cache was filled.
 		s.ResetCache()
